@@ -339,11 +339,12 @@ func runPct(c c20Pct) (msg, str string) {
 // ---------------------------------------------------------------- durations
 
 type c20Time struct {
-	Style int    `json:"style"`
-	D     int64  `json:"dur_ns"`
-	Via   string `json:"via"` // norm | ewmaeta | elapsed | avgeta
-	Cur   int64  `json:"current,omitempty"`
-	Tot   int64  `json:"total,omitempty"`
+	Style int     `json:"style"`
+	D     int64   `json:"dur_ns"`
+	Via   string  `json:"via"` // norm | ewmaeta | elapsed | avgeta
+	Cur   int64   `json:"current,omitempty"`
+	Tot   int64   `json:"total,omitempty"`
+	PerNs float64 `json:"per_item_ns,omitempty"` // ewmaeta: the average handed to the decorator (0 = D/(Tot-Cur))
 }
 
 func parseClock(s string) (fields []int64, ok bool) {
@@ -360,7 +361,10 @@ func parseClock(s string) (fields []int64, ok bool) {
 	return fields, true
 }
 
-// checkTimeString: s must read back to a duration in [lo, hi] (both truncated to the style's resolution).
+// checkTimeString: s must read back to the true duration, which lies in [lo, hi],
+// within the printed precision: not more than one unit of the style's resolution
+// below it (truncation) and not more than half a unit above it (rounding). The
+// slack of a few nanoseconds is the floating-point fuzz of computing lo and hi.
 func checkTimeString(s string, style int, lo, hi time.Duration) string {
 	s = strings.TrimSpace(s)
 	var got time.Duration
@@ -402,7 +406,8 @@ func checkTimeString(s string, style int, lo, hi time.Duration) string {
 			got = time.Duration(f[0])*time.Hour + time.Duration(f[1])*time.Minute + time.Duration(f[2])*time.Second
 		}
 	}
-	if got < lo.Truncate(res) || got > hi.Truncate(res) {
+	const fuzz = 4 * time.Nanosecond
+	if got <= lo-res-fuzz || got > hi+res/2+fuzz {
 		return fmt.Sprintf("printed %q = %v, true duration in [%v, %v] (resolution %v)", s, got, lo, hi, res)
 	}
 	return ""
@@ -441,11 +446,14 @@ func runTime(c c20Time) (msg, str string) {
 		str, _ = d.Decor(decor.Statistics{Total: 10, Current: 1})
 		return checkTimeString(str, c.Style, D, D), str
 	case "ewmaeta":
-		// remaining = (total-current) * round(avg ns per item)
+		// the true estimate: (total-current) items at the average time per item
 		per := float64(c.D) / float64(c.Tot-c.Cur)
+		if c.PerNs != 0 {
+			per = c.PerNs
+		}
 		d := decor.MovingAverageETA(decor.TimeStyle(c.Style), &fixedAvg{v: per}, nil)
 		str, _ = d.Decor(decor.Statistics{Total: c.Tot, Current: c.Cur})
-		exp := time.Duration((c.Tot - c.Cur) * int64(math.Round(per)))
+		exp := time.Duration(math.Round(float64(c.Tot-c.Cur) * per))
 		if exp > c20MaxDur+time.Second {
 			return "", "(outside the documented domain, skipped)"
 		}
@@ -465,8 +473,7 @@ func runTime(c c20Time) (msg, str string) {
 			return checkTimeString(str, c.Style, 0, 0), str
 		}
 		rem := func(el time.Duration) time.Duration {
-			per := math.Round(float64(el) / float64(c.Cur))
-			return time.Duration((c.Tot - c.Cur) * int64(per))
+			return time.Duration(math.Round(float64(c.Tot-c.Cur) * (float64(el) / float64(c.Cur))))
 		}
 		return checkTimeString(str, c.Style, rem(D), rem(D+over)), str
 	}
@@ -820,6 +827,13 @@ func runC20(job common.Job, em *emitter) {
 					doTime(c20Time{Style: st, D: int64(5 * time.Second), Via: "avgeta", Cur: 0, Tot: 10})
 					doTime(c20Time{Style: st, D: int64(5 * time.Second), Via: "avgeta", Cur: 5, Tot: 10})
 					doTime(c20Time{Style: st, D: int64(90 * time.Minute), Via: "avgeta", Cur: 1 << 20, Tot: 1 << 21})
+					// fast streams: many items left, a fraction of a nanosecond per item
+					for _, items := range []int64{1e6, 1e9, 1e10, 1 << 40} {
+						for _, per := range []float64{0.3, 0.5, 1.4, 2.5, 17.49} {
+							doTime(c20Time{Style: st, Via: "ewmaeta", Cur: 7, Tot: 7 + items, PerNs: per})
+						}
+						doTime(c20Time{Style: st, D: int64(14 * time.Second), Via: "avgeta", Cur: 1e10, Tot: 1e10 + items})
+					}
 				}
 				for _, k := range []string{"elapsed", "avgspeed"} {
 					for st := 0; st < 4; st++ {
@@ -851,6 +865,16 @@ func runC20(job common.Job, em *emitter) {
 					if via == "ewmaeta" {
 						c.Cur = rng.I64n(1000)
 						c.Tot = c.Cur + 1 + rng.I64n(1000)
+						if rng.Chance(1, 3) {
+							// byte streams: up to 2^44 items left at up to a few ns each (under 60 h)
+							items := int64(1) << uint(rng.Range(10, 44))
+							items += rng.I64n(items)
+							c.Tot = c.Cur + items
+							c.PerNs = float64(d) / float64(items) * (0.5 + float64(rng.Intn(1000))/1000)
+							if c.PerNs == 0 {
+								c.PerNs = 0.25
+							}
+						}
 					}
 					doTime(c)
 				}
